@@ -37,6 +37,9 @@ def run(ctx, res):
         for p in b["params"]:
             if p["pat"]["p"] == "bind":
                 env[p["pat"]["id"]] = A.Sym(p["pat"]["name"], p["ty"])
+        # `while let Some(t) = tokens.get(cursor) { .. }`: the condition (which fetches the token) belongs to the iteration
+        if "while_cond" in loop and not J.cond(loop["while_cond"], env):
+            raise A._Break(None)
         return J.ev(loop["body"], env)
     try:
         outs = I.explore(run_)
@@ -117,7 +120,7 @@ def run(ctx, res):
         # R3: an opening tag is always descended into (otherwise it can never pair with its closing tag)
         parsed_key = [k for k in d if k.startswith("is_some(parse(") or k.startswith("is_some(element_parser::parse(")]
         is_elem = any(d[k] is True for k in parsed_key)
-        returned_as_closer = o["exit"] == "break" and isinstance(o["value"], A.Tuple) and len(o["value"].items) == 2 and isinstance(o["value"].items[1], A.Variant) and o["value"].items[1].name == "Some"
+        returned_as_closer = o["exit"] in ("break", "return") and isinstance(o["value"], A.Tuple) and len(o["value"].items) == 2 and isinstance(o["value"].items[1], A.Variant) and o["value"].items[1].name == "Some"
         if is_elem and not returned_as_closer:
             if recursed:
                 res.holds("C10.R3", fn, site + ":descent")
